@@ -22,7 +22,7 @@ class Divergence(Exception):
 
 
 class Execution:
-    def __init__(self, bodies, prefix, opcode_files=(), horizon=200000):
+    def __init__(self, bodies, prefix, opcode_files=(), horizon=200000, visits=3):
         self.bodies = bodies
         self.prefix = list(prefix)
         self.n = len(bodies)
@@ -35,6 +35,10 @@ class Execution:
         self.opcode_files = tuple(opcode_files)
         self.horizon = horizon
         self.error = None
+        # a source line (or opcode) is a scheduling point only for its first `visits` executions per thread:
+        # bounds the points contributed by long loops (stated in the evidence as part of the bound)
+        self.visits = visits
+        self.seen = [dict() for _ in bodies]
 
     def enabled(self, running):
         en = [i for i in range(self.n) if not self.done[i]]
@@ -66,7 +70,12 @@ class Execution:
         def local(frame, event, arg):
             if event == "line" or event == "opcode":
                 co = frame.f_code
-                self.point(me, (co.co_filename[len(TRACE_DIR) :], frame.f_lineno, frame.f_lasti if event == "opcode" else -1))
+                loc = (co.co_filename[len(TRACE_DIR) :], frame.f_lineno, frame.f_lasti if event == "opcode" else -1)
+                seen = self.seen[me]
+                n = seen.get(loc, 0)
+                if n < self.visits:
+                    seen[loc] = n + 1
+                    self.point(me, loc)
             return local
 
         def tr(frame, event, arg):
@@ -128,6 +137,54 @@ class Execution:
 
     def sig(self, upto):
         return h64([(p[0], p[2]) for p in self.points[:upto]])
+
+
+class Record:
+    """Picklable outcome of one execution (used when executions run in forked children)."""
+
+    def __init__(self, x):
+        self.results = x.results
+        self.points = x.points
+        self.choices = x.choices
+        self.error = x.error
+
+    preemptions_before = Execution.preemptions_before
+    sig = Execution.sig
+
+
+def explore_with(run_exec, prefix, expect_sig, bound, on_exec, stats=None):
+    """Like explore(), but every execution is produced by run_exec(prefix) -> Record/Execution (e.g. in a
+    freshly forked child, so that lazily built state is cold for every execution)."""
+    x = run_exec(prefix)
+    if x.error:
+        raise Divergence(x.error)
+    if prefix and expect_sig is not None and x.sig(len(prefix)) != expect_sig:
+        raise Divergence(f"replay of prefix {prefix} diverged from the recorded scheduling points")
+    if stats is not None:
+        stats["executions"] = stats.get("executions", 0) + 1
+        stats["points"] = stats.get("points", 0) + len(x.points)
+    on_exec(x)
+    costs = x.preemptions_before()
+    for i in range(len(prefix), len(x.points)):
+        me, en, loc = x.points[i]
+        cost = costs[i] + (1 if (me >= 0 and en[0] == me) else 0)
+        if cost > bound:
+            continue
+        for alt in range(1, len(en)):
+            explore_with(run_exec, x.choices[:i] + [alt], x.sig(i + 1), bound, on_exec, stats)
+
+
+def children_of(x, bound):
+    out = []
+    costs = x.preemptions_before()
+    for i in range(len(x.points)):
+        me, en, loc = x.points[i]
+        cost = costs[i] + (1 if (me >= 0 and en[0] == me) else 0)
+        if cost > bound:
+            continue
+        for alt in range(1, len(en)):
+            out.append((x.choices[:i] + [alt], x.sig(i + 1)))
+    return out
 
 
 def explore(make_bodies, reset, prefix, expect_sig, bound, on_exec, opcode_files=(), stats=None):
